@@ -113,6 +113,7 @@ func (p *Persister) Save(key string) error {
 		logg.Tracef("state and cache flushed from persister")
 		p.Memory.Reset()
 		p.Memory.Pop()
+		p.Memory.LastValue = ""
 		p.State = p.State.CloneEmpty()
 	}
 	return nil
